@@ -25,7 +25,7 @@ func conversionError(modifier string, value any, typ reflect.Type) error {
 	if modifier != "" {
 		modifier += " "
 	}
-	if ref, ok := value.(reflect.Value); ok {
+	if ref, ok := value.(reflect.Value); ok && ref.IsValid() {
 		value = ref.Interface()
 	}
 	return typeErrorf("can't convert %s%T(%v) to type %s", modifier, value, value, typ)
